@@ -899,8 +899,12 @@ def replay(chk, path):
         for v in r.get("cc", []):
             if "cc_err" in v and not names_clash(v["kw"], r.get("cls", "")):
                 probs.append("creation_commands raised " + v["cc_err"])
-            elif "cc_err" not in v and (v.get("exec_err") or v.get("equal") is not True or v.get("nc_equal") is not True):
-                probs.append(f"rebuild: {v.get('exec_err')} equal={v.get('equal')} nc={v.get('nc_equal')}")
+            elif "cc_err" not in v:
+                by_fp = r.get("self_equal") is not True or (v.get("equal") is None and v.get("equals_err"))
+                same = v.get("fp_equal") if by_fp else v.get("equal")
+                if v.get("exec_err") or same is not True or v.get("nc_equal") is not True:
+                    probs.append(f"rebuild: {v.get('exec_err')} equal={v.get('equal')} fingerprint={v.get('fp_equal')} "
+                                 f"nc={v.get('nc_equal')}")
         print(("FAIL " if probs else "ok   ") + json.dumps({k: c.get(k) for k in ("base", "mods", "select", "kws")})[:300], probs)
         bad += bool(probs)
     return 1 if bad else 0
